@@ -1453,7 +1453,8 @@ class CallMixin:
         if name in ("ValueError", "TypeError", "KeyError", "IndexError", "AttributeError", "NotImplementedError",
                     "RuntimeError", "Exception", "ImportError", "LookupError", "AssertionError", "BaseException",
                     "StopIteration", "ArithmeticError", "ZeroDivisionError", "OverflowError", "NameError", "OSError",
-                    "UnicodeError"):
+                    "UnicodeError", "RecursionError", "MemoryError", "UnicodeDecodeError", "UnicodeEncodeError", "FloatingPointError",
+                    "EOFError", "TimeoutError"):
             self.event("new_exc", cls="builtins." + name, args=a)
             return Sym("exc", RefV("builtins." + name), tuple(a), _kw(kwargs))
         return Sym("call", RefV("builtins." + name), tuple(a), _kw(kwargs))
